@@ -1,5 +1,6 @@
 // Shared main() plumbing for E1 harness binaries: argument parsing, scenario iteration, JSON lines.
 #pragma once
+#include <csignal>
 #include <cstdio>
 #include <cstdlib>
 #include <cstring>
@@ -9,6 +10,7 @@
 #include <vector>
 
 #include <sched.h>
+#include <unistd.h>
 
 #include "../engine/sched.h"
 
@@ -29,6 +31,70 @@ inline std::string jesc(const std::string& s) {
         }
     }
     return o;
+}
+
+// ---------------------------------------------------------------------------------------------------------------------------
+// Crash reporter for the engines that evaluate their cases in-process (ykseq, ykenum): a fatal signal raised by the library while
+// a case is being evaluated is reported as a violation of that case (JSON line with a replayable "repro"), not as a dead job.
+// The case description is produced lazily (only in the handler) through a CrashScope that points at a callable on the stack.
+// ---------------------------------------------------------------------------------------------------------------------------
+struct CrashState {
+    const char* engine = "";
+    char part[256] = {0};
+    char sigclass[64] = {0};
+    std::string (*fn)(const void*) = nullptr;
+    const void* ctx = nullptr;
+};
+inline CrashState& crash_state() {
+    static CrashState c;
+    return c;
+}
+struct CrashScope {
+    std::string (*prev_fn)(const void*);
+    const void* prev_ctx;
+    template<class F>
+    explicit CrashScope(const F& f) {
+        CrashState& c = crash_state();
+        prev_fn = c.fn;
+        prev_ctx = c.ctx;
+        c.ctx = &f;
+        c.fn = [](const void* p) -> std::string { return (*static_cast<const F*>(p))(); };
+    }
+    ~CrashScope() {
+        CrashState& c = crash_state();
+        c.fn = prev_fn;
+        c.ctx = prev_ctx;
+    }
+    CrashScope(const CrashScope&) = delete;
+    CrashScope& operator=(const CrashScope&) = delete;
+};
+inline void crash_part(const std::string& part, const std::string& sigclass) {
+    CrashState& c = crash_state();
+    snprintf(c.part, sizeof(c.part), "%s", part.c_str());
+    snprintf(c.sigclass, sizeof(c.sigclass), "%s", sigclass.c_str());
+}
+inline void crash_handler(int sig) {
+    static volatile sig_atomic_t entered = 0;
+    if (entered != 0) _exit(3);
+    entered = 1;
+    alarm(10); // describing the case allocates: if the heap is what broke, die with SIGALRM instead of hanging
+    CrashState& c = crash_state();
+    std::string repro = c.fn != nullptr ? c.fn(c.ctx) : std::string();
+    static char buf[16384];
+    int n = snprintf(buf, sizeof(buf),
+                     "\n{\"engine\":\"%s\",\"part\":\"%s\",\"scenario\":\"%s\",\"sigclass\":\"%s\",\"states\":0,\"transitions\":0,\"evaluations\":1,"
+                     "\"exhaustive\":false,\"violations\":[{\"symptom\":\"crash:signal%d\",\"detail\":\"the library raised signal %d while this case was "
+                     "evaluated || case %s\",\"repro\":\"%s\"}]}\n",
+                     c.engine, jesc(c.part).c_str(), jesc(c.part).c_str(), jesc(c.sigclass).c_str(), sig, sig, jesc(repro).c_str(), jesc(repro).c_str());
+    if (n > 0) {
+        ssize_t w = write(1, buf, size_t(n) < sizeof(buf) ? size_t(n) : sizeof(buf) - 1);
+        (void)w;
+    }
+    _exit(1);
+}
+inline void install_crash_reporter(const char* engine) {
+    crash_state().engine = engine;
+    for (int sig : {SIGSEGV, SIGBUS, SIGABRT, SIGFPE, SIGILL}) signal(sig, crash_handler);
 }
 
 struct Args {
